@@ -173,16 +173,30 @@ func (c *Cache) Watch(
 		// Create/Get Informer
 		informer, _, err := c.informerMap.Get(ctx, gvk, uns)
 		if err != nil {
+			c.rollbackWatch(ctx, gvk)
 			return fmt.Errorf("getting informer from InformerMap: %w", err)
 		}
 
 		// ensure to add all event handlers to the new informer
 		if err := c.cacheSource.handleNewInformer(informer); err != nil {
+			c.rollbackWatch(ctx, gvk)
 			return fmt.Errorf("registering EventHandlers for %v: %w", gvk, err)
 		}
 	}
 
 	return nil
+}
+
+// rollbackWatch forgets a GVK whose informer could not be started or did not get its event handlers.
+// Without this the next Watch call would find the reference, assume a working informer
+// and never register event handlers for the kind.
+// Callers must hold informerReferencesMux.
+func (c *Cache) rollbackWatch(ctx context.Context, gvk schema.GroupVersionKind) {
+	delete(c.informerReferences, gvk)
+	// Stop a half-started informer. This is a no-op if none was registered.
+	if err := c.informerMap.Delete(ctx, gvk); err != nil {
+		logr.FromContextOrDiscard(ctx).Error(err, "releasing informer after failed start", "gvk", gvk.String())
+	}
 }
 
 // Free all watches associated with the given owner.
